@@ -2,3 +2,1312 @@
 From V.lib Require Import Prelude.
 From V.model Require Import PackUri Opc.
 From V.proofs Require Import Prelude_proofs PackUri_proofs.
+From Coq Require Import Permutation Sorting.Sorted.
+
+(** ---- small facts ---- *)
+
+Lemma mem_str_nIn x l : mem_str x l = false <-> ~ In x l.
+Proof. rewrite <- mem_str_In. destruct (mem_str x l); split; congruence. Qed.
+
+Lemma str_eq_dec (a b : str) : {a = b} + {a <> b}.
+Proof. destruct (str_eqb_spec a b); auto. Qed.
+
+Lemma str_eqb_neq a b : str_eqb a b = false <-> a <> b.
+Proof. destruct (str_eqb_spec a b); split; congruence. Qed.
+
+Lemma str_eqb_sym a b : str_eqb a b = str_eqb b a.
+Proof. destruct (str_eqb_spec a b), (str_eqb_spec b a); congruence. Qed.
+
+Lemma filter_len {A} (b : A -> bool) L : length (filter b L) <= length L.
+Proof. induction L as [|a L IHL]; simpl; [lia|destruct (b a); simpl; lia]. Qed.
+
+(** ---- the depth-first walk computes reachability ---- *)
+
+Section DFS.
+Variable g : str -> list str.
+
+Notation reach := (Opc.reach g).
+
+Lemma reach_trans a b c : reach a b -> reach b c -> reach a c.
+Proof. intros H1 H2. induction H2; auto. eapply (r1 g); eauto. Qed.
+
+Lemma reach_step a b c : In b (g a) -> reach b c -> reach a c.
+Proof. intros H1 H2. eapply reach_trans; [|exact H2]. eapply (r1 g); [apply (r0 g)|auto]. Qed.
+
+(** nodes of interest: closed under [g] and inside the finite list [U] *)
+Variable ok : str -> Prop.
+Variable U : list str.
+Hypothesis ok_closed : forall x y, ok x -> In y (g x) -> ok y.
+Hypothesis ok_U : forall x, ok x -> In x U.
+
+Definition unvL (L vis : list str) := length (filter (fun u => negb (mem_str u vis)) L).
+
+Lemma unvL_mono L v v' : incl v v' -> unvL L v' <= unvL L v.
+Proof.
+  intros H; unfold unvL. induction L as [|u L' IH]; simpl; auto.
+  destruct (mem_str u v') eqn:E'; destruct (mem_str u v) eqn:E; simpl; try lia.
+  exfalso. apply (proj1 (mem_str_In _ _)) in E. apply H in E.
+  apply (proj2 (mem_str_In _ _)) in E. congruence.
+Qed.
+
+Lemma unvL_le L x v : unvL L (x :: v) <= unvL L v.
+Proof. apply unvL_mono. intros z Hz; simpl; auto. Qed.
+
+Lemma unvL_cons L x v : In x L -> ~ In x v -> unvL L (x :: v) < unvL L v.
+Proof.
+  unfold unvL. induction L as [|u L' IH]; [simpl; tauto|]. intros Hin Hn.
+  cbn [filter].
+  assert (Hle := unvL_le L' x v). unfold unvL in Hle.
+  destruct (str_eq_dec u x) as [->|Hne].
+  - assert (E1: mem_str x (x :: v) = true) by (apply mem_str_In; simpl; auto).
+    assert (E2: mem_str x v = false) by (apply mem_str_nIn; auto).
+    rewrite E1, E2. cbn [negb length]. lia.
+  - destruct Hin as [->|Hin]; [congruence|]. specialize (IH Hin Hn).
+    assert (E: mem_str u (x :: v) = mem_str u v).
+    { unfold mem_str; simpl. apply str_eqb_neq in Hne. rewrite Hne. reflexivity. }
+    rewrite E. destruct (mem_str u v); cbn [negb length]; lia.
+Qed.
+
+Definition unv := unvL U.
+Lemma unv_mono v v' : incl v v' -> unv v' <= unv v. Proof. apply unvL_mono. Qed.
+Lemma unv_cons x v : In x U -> ~ In x v -> unv (x :: v) < unv v. Proof. apply unvL_cons. Qed.
+Lemma unv_le_length v : unv v <= length U.
+Proof. unfold unv, unvL. apply filter_len. Qed.
+
+(** specification of one call of [dfs] *)
+Definition spec (vis : list str) (src : str) (vis' : list str) :=
+  incl (src :: vis) vis' /\
+  (forall x, In x vis' -> ~ In x vis -> forall y, In y (g x) -> In y vis') /\
+  (forall x, In x vis' -> In x vis \/ reach src x) /\
+  (NoDup vis -> NoDup vis').
+
+(** the loop over the successors, given the specification of the recursive calls *)
+Lemma fold_spec f :
+  (forall vis src, ~ In src vis -> ok src -> unv vis <= f -> spec vis src (dfs g (S f) vis src)) ->
+  forall base srcs ys acc,
+    (forall y, In y ys -> ok y) ->
+    (forall y, In y ys -> exists s, In s srcs /\ reach s y) ->
+    incl base acc -> unv acc <= f ->
+    (forall x, In x acc -> ~ In x base -> forall y, In y (g x) -> In y acc) ->
+    (forall x, In x acc -> In x base \/ exists s, In s srcs /\ reach s x) ->
+    let r := fold_left (step (dfs g (S f))) ys acc in
+    incl acc r /\
+    (forall y, In y ys -> In y r) /\
+    (forall x, In x r -> ~ In x base -> forall y, In y (g x) -> In y r) /\
+    (forall x, In x r -> In x base \/ exists s, In s srcs /\ reach s x) /\
+    (NoDup acc -> NoDup r).
+Proof.
+  intros IH base srcs ys. induction ys as [|y ys IHy]; intros acc Hok Hys Hacc Hu Hcl Hsd; cbn zeta.
+  - cbn [fold_left]. split; [apply incl_refl|]. split; [intros ? []|]. split; auto.
+  - assert (Hoky : ok y) by (apply Hok; simpl; auto).
+    assert (Hok' : forall z, In z ys -> ok z) by (intros z Hz; apply Hok; simpl; auto).
+    assert (Hys' : forall z, In z ys -> exists s, In s srcs /\ reach s z) by (intros z Hz; apply Hys; simpl; auto).
+    cbn [fold_left]. unfold step at 2 4 6 8 10 12. destruct (mem_str y acc) eqn:E.
+    + destruct (IHy acc Hok' Hys' Hacc Hu Hcl Hsd) as (A & B & C & D & N).
+      split; [exact A|]. split; [|split; [exact C|split; [exact D|exact N]]].
+      intros z [<-|Hz]; [apply A; apply mem_str_In; exact E|apply B; exact Hz].
+    + apply mem_str_nIn in E.
+      destruct (IH acc y E Hoky Hu) as (S1 & S2 & S3 & S4).
+      set (acc1 := dfs g (S f) acc y) in *.
+      assert (Hmono : incl acc acc1) by (intros z Hz; apply S1; simpl; auto).
+      assert (Hacc1 : incl base acc1) by (intros z Hz; apply Hmono, Hacc, Hz).
+      assert (Hu1 : unv acc1 <= f) by (pose proof (unv_mono _ _ Hmono); lia).
+      assert (Hcl1 : forall x, In x acc1 -> ~ In x base -> forall y0, In y0 (g x) -> In y0 acc1).
+      { intros x Hx Hnx y0 Hy0. destruct (in_dec str_eq_dec x acc) as [Hin|Hnin].
+        - apply Hmono. eapply Hcl; eauto.
+        - eapply S2; eauto. }
+      assert (Hsd1 : forall x, In x acc1 -> In x base \/ exists s, In s srcs /\ reach s x).
+      { intros x Hx. destruct (S3 x Hx) as [Hin|Hr]; auto.
+        right. destruct (Hys y (or_introl eq_refl)) as (s & Hs & Hsy).
+        exists s; split; auto. eapply reach_trans; eauto. }
+      destruct (IHy acc1 Hok' Hys' Hacc1 Hu1 Hcl1 Hsd1) as (A & B & C & D & N).
+      split; [intros z Hz; apply A, Hmono, Hz|]. split; [|split; [exact C|split; [exact D|auto]]].
+      intros z [<-|Hz]; [apply A, S1; simpl; auto|apply B; exact Hz].
+Qed.
+
+Lemma dfs_spec fuel : forall vis src, ~ In src vis -> ok src -> unv vis <= fuel ->
+  spec vis src (dfs g (S fuel) vis src).
+Proof.
+  induction fuel as [|f IH]; intros vis src Hn Hok Hf.
+  - pose proof (unv_cons src vis (ok_U _ Hok) Hn). lia.
+  - change (dfs g (S (S f)) vis src) with (fold_left (step (dfs g (S f))) (g src) (src :: vis)).
+    assert (Hu0 : unv (src :: vis) <= f) by (pose proof (unv_cons src vis (ok_U _ Hok) Hn); lia).
+    assert (H1 : forall y, In y (g src) -> ok y) by (intros y Hy; eapply ok_closed; eauto).
+    assert (H2 : forall y, In y (g src) -> exists s, In s [src] /\ reach s y).
+    { intros y Hy. exists src; split; [simpl; auto|]. eapply (r1 g); [apply (r0 g)|auto]. }
+    assert (H5 : forall x, In x (src :: vis) -> ~ In x (src :: vis) -> forall y, In y (g x) -> In y (src :: vis))
+      by (intros x Hx Hnx; contradiction).
+    assert (H6 : forall x, In x (src :: vis) -> In x (src :: vis) \/ exists s, In s [src] /\ reach s x)
+      by (intros x Hx; auto).
+    destruct (fold_spec f IH (src :: vis) [src] (g src) (src :: vis) H1 H2 (incl_refl _) Hu0 H5 H6) as (A & B & C & D & N).
+    unfold spec. repeat split; auto.
+    + intros x Hx Hnx y Hy. destruct (str_eq_dec x src) as [->|Hne]; [apply B; auto|].
+      eapply C; eauto. intros [E|E]; [congruence|auto].
+    + intros x Hx. destruct (D x Hx) as [[<-|Hv]|(s & [<-|[]] & Hr)]; auto. right; apply (r0 g).
+    + intros Hnd. apply N. constructor; auto.
+Qed.
+
+(** the walk from a single root *)
+Theorem dfs_reach root0 fuel : ok root0 -> length U <= fuel ->
+  (forall x, In x (dfs g (S fuel) [] root0) <-> reach root0 x) /\ NoDup (dfs g (S fuel) [] root0).
+Proof.
+  intros Hok Hf.
+  assert (Hu : unv [] <= fuel) by (pose proof (unv_le_length []); lia).
+  destruct (dfs_spec fuel [] root0 (fun H => H) Hok Hu) as (S1 & S2 & S3 & S4).
+  split; [|apply S4; constructor].
+  intros x; split.
+  - intros Hx. destruct (S3 x Hx) as [[]|]; auto.
+  - intros Hr. induction Hr.
+    + apply S1; simpl; auto.
+    + eapply S2; eauto.
+Qed.
+
+(** the walk from a list of start nodes (OpcPackage.iter_rels) *)
+Theorem walk_reach ys fuel : (forall y, In y ys -> ok y) -> length U <= fuel ->
+  (forall x, In x (walk g (S fuel) [] ys) <-> exists y, In y ys /\ reach y x)
+  /\ NoDup (walk g (S fuel) [] ys).
+Proof.
+  intros Hok Hf. unfold walk.
+  assert (Hu : unv [] <= fuel) by (pose proof (unv_le_length []); lia).
+  assert (H2 : forall y, In y ys -> exists s, In s ys /\ reach s y)
+    by (intros y Hy; exists y; split; auto; apply (r0 g)).
+  assert (H5 : forall x, In x (@nil str) -> ~ In x (@nil str) -> forall y, In y (g x) -> In y (@nil str))
+    by (intros x []).
+  assert (H6 : forall x, In x (@nil str) -> In x (@nil str) \/ exists s, In s ys /\ reach s x)
+    by (intros x []).
+  destruct (fold_spec fuel (dfs_spec fuel) [] ys ys [] Hok H2 (incl_refl _) Hu H5 H6) as (A & B & C & D & N).
+  split; [|apply N; constructor].
+  intros x; split.
+  - intros Hx. destruct (D x Hx) as [[]|]; auto.
+  - intros (y & Hy & Hr). induction Hr.
+    + apply B; auto.
+    + eapply C; eauto.
+Qed.
+End DFS.
+
+(** ---- association lists ---- *)
+
+Lemma lookup_In {V} k (d : list (str * V)) v : lookup k d = Some v -> In (k, v) d.
+Proof.
+  induction d as [|[k' v'] d IH]; simpl; [discriminate|].
+  destruct (str_eqb_spec k' k) as [->|Hn]; [intros [= ->]; auto|auto].
+Qed.
+
+Lemma lookup_In_fst {V} k (d : list (str * V)) v : lookup k d = Some v -> In k (map fst d).
+Proof. intros H. apply lookup_In in H. apply (in_map fst) in H. exact H. Qed.
+
+Lemma lookup_None {V} k (d : list (str * V)) : lookup k d = None <-> ~ In k (map fst d).
+Proof.
+  induction d as [|[k' v'] d IH]; simpl; [tauto|].
+  destruct (str_eqb_spec k' k) as [->|Hn]; [split; [discriminate|tauto]|].
+  rewrite IH. tauto.
+Qed.
+
+Lemma has_In {V} k (d : list (str * V)) : has k d = true <-> In k (map fst d).
+Proof.
+  unfold has. destruct (lookup k d) eqn:E.
+  - split; auto. intros _. eapply lookup_In_fst; eauto.
+  - apply lookup_None in E. split; [discriminate|tauto].
+Qed.
+
+Lemma lookup_app {V} k (a b : list (str * V)) :
+  lookup k (a ++ b) = match lookup k a with Some v => Some v | None => lookup k b end.
+Proof.
+  induction a as [|[k' v'] a IH]; simpl; auto. destruct (str_eqb k' k); auto.
+Qed.
+
+Lemma lookup_NoDup_In {V} k v (d : list (str * V)) :
+  NoDup (map fst d) -> In (k, v) d -> lookup k d = Some v.
+Proof.
+  induction d as [|[k' v'] d IH]; simpl; [tauto|]. intros Hnd [H|H].
+  - inversion H; subst. rewrite str_eqb_refl. reflexivity.
+  - inversion Hnd; subst. destruct (str_eqb_spec k' k) as [->|Hn]; auto.
+    exfalso. apply H2. apply (in_map fst) in H. exact H.
+Qed.
+
+Lemma mapM_ok {A B} (f : A -> res B) (h : A -> B) l :
+  (forall x, In x l -> f x = Ok (h x)) -> mapM f l = Ok (map h l).
+Proof.
+  induction l as [|x l IH]; simpl; auto. intros H.
+  rewrite (H x) by auto. simpl. rewrite IH by auto. reflexivity.
+Qed.
+
+(** ---- the relationship dict keeps a list whose ids are distinct ---- *)
+
+Lemma lrels_set_fresh r d : ~ In (l_id r) (map l_id d) -> lrels_set r d = d ++ [r].
+Proof.
+  induction d as [|r' d IH]; simpl; auto. intros H.
+  destruct (str_eqb_spec (l_id r') (l_id r)) as [E|Hn]; [tauto|]. rewrite IH; auto.
+Qed.
+
+Lemma lrels_dict_acc l : forall acc, NoDup (map l_id (acc ++ l)) ->
+  fold_left (fun d r => lrels_set r d) l acc = acc ++ l.
+Proof.
+  induction l as [|r l IH]; intros acc H; simpl.
+  - rewrite app_nil_r; auto.
+  - rewrite lrels_set_fresh.
+    + rewrite IH; rewrite <- app_assoc; auto.
+    + rewrite map_app in H. simpl in H. apply NoDup_remove_2 in H. intros Hc. apply H.
+      apply in_or_app; auto.
+Qed.
+
+Lemma lrels_dict_id l : NoDup (map l_id l) -> lrels_dict l = l.
+Proof. intros H. unfold lrels_dict. rewrite lrels_dict_acc; auto. Qed.
+
+(** ---- conversion of decoded relationships under the side conditions ---- *)
+
+Definition conv_rel (src : str) (r : rel) : lrel :=
+  mkLrel (r_id r) (r_type r) (is_ext r)
+         (if is_ext r then r_target r else resolve (baseURI src) (r_target r)).
+
+Lemma valid_rels_all src present rs :
+  (forall r, In r rs -> r_mode r <> MOther /\
+     (is_ext r = false -> present (resolve (baseURI src) (r_target r)) = true)) ->
+  valid_rels src present rs = Ok (map (conv_rel src) rs).
+Proof.
+  induction rs as [|r rs IH]; simpl; auto. intros H.
+  destruct (H r (or_introl eq_refl)) as [Hm Hp].
+  rewrite IH by (intros; apply H; auto). unfold conv_rel, is_ext in *.
+  destruct (r_mode r); simpl; try congruence.
+  rewrite Hp by auto. reflexivity.
+Qed.
+
+Lemma conv_rel_ids src rs : map l_id (map (conv_rel src) rs) = map r_id rs.
+Proof. rewrite map_map. reflexivity. Qed.
+
+Lemma lint_targets_conv src rs : lint_targets (map (conv_rel src) rs) = int_targets src rs.
+Proof.
+  unfold lint_targets, int_targets. induction rs as [|r rs IH]; simpl; auto.
+  destruct (is_ext r) eqn:E; simpl; rewrite ?E; simpl; rewrite IH; auto.
+Qed.
+
+(** ---- the loader on a well-formed package ---- *)
+
+Definition ct_or (c : cts) (n : str) : str := match ct_lookup c n with Ok t => t | Err _ => [] end.
+
+Section Load.
+Context {blob : Type}.
+Variable E : env blob.
+Variable p : phys blob.
+Hypothesis Hwf : wf E p.
+
+Lemma wf_ct : exists cb c, lookup ct_uri p = Some cb /\ dec_ct E cb = Some c /\
+  forall x, reachable E p x -> x <> root ->
+    exists ct b, ct_lookup c x = Ok ct /\ lookup x p = Some b /\
+                 (is_xml_ct E ct = true -> exists b', reser E b = Some b').
+Proof. exact (proj1 Hwf). Qed.
+
+Lemma wf_rels x : reachable E p x -> exists rs, rels_for E p x = Some rs /\ NoDup (map r_id rs) /\
+  forall r, In r rs -> r_mode r <> MOther /\
+                       (is_ext r = false -> resolve (baseURI x) (r_target r) <> root).
+Proof. exact (proj1 (proj2 Hwf) x). Qed.
+
+Lemma wf_part_name x : reachable E p x -> x <> root -> part_name x.
+Proof. exact (proj1 (proj2 (proj2 Hwf)) x). Qed.
+
+Lemma wf_case x y : reachable E p x -> reachable E p y -> lower x = lower y -> x = y.
+Proof. exact (proj2 (proj2 (proj2 Hwf)) x y). Qed.
+
+Lemma reachable_member x : reachable E p x -> x <> root -> In x (map fst p).
+Proof.
+  intros Hr Hn. destruct wf_ct as (cb & c & _ & _ & H).
+  destruct (H x Hr Hn) as (ct & b & _ & Hl & _). eapply lookup_In_fst; eauto.
+Qed.
+
+Lemma names_spec :
+  (forall x, In x (xml_rels_names E p) <-> reachable E p x) /\ NoDup (xml_rels_names E p).
+Proof.
+  unfold xml_rels_names, fuel_of.
+  destruct (dfs_reach (succs E p) (reachable E p) (root :: map fst p)) with (root0 := root) (fuel := S (length p))
+    as [H1 H2].
+  - intros x y Hx Hy. eapply r1; eauto.
+  - intros x Hx. destruct (str_eq_dec x root) as [->|Hn]; [simpl; auto|].
+    right. apply reachable_member; auto.
+  - apply r0.
+  - simpl. rewrite map_length. lia.
+  - split.
+    + intros x. rewrite <- in_rev. apply H1.
+    + apply NoDup_rev. exact H2.
+Qed.
+
+Lemma part_names_spec :
+  (forall x, In x (part_names E p) <-> (reachable E p x /\ x <> root)) /\ NoDup (part_names E p).
+Proof.
+  destruct names_spec as [H1 H2]. unfold part_names. split.
+  - intros x. rewrite filter_In, H1, andb_true_iff, negb_true_iff, str_eqb_neq, has_In.
+    split; [tauto|]. intros [Hr Hn]. repeat split; auto. apply reachable_member; auto.
+  - apply NoDup_filter. exact H2.
+Qed.
+
+Lemma succs_rels x rs : rels_for E p x = Some rs -> succs E p x = int_targets x rs.
+Proof. intros H. unfold succs. rewrite H. reflexivity. Qed.
+
+Lemma rels_or_nil_eq x rs : rels_for E p x = Some rs -> rels_or_nil E p x = rs.
+Proof. intros H. unfold rels_or_nil. rewrite H. reflexivity. Qed.
+
+Lemma int_target_in src rs r : In r rs -> is_ext r = false ->
+  In (resolve (baseURI src) (r_target r)) (int_targets src rs).
+Proof.
+  intros Hin He. unfold int_targets. apply in_map_iff. exists r. split; auto.
+  apply filter_In. split; auto. rewrite He. reflexivity.
+Qed.
+
+(** targets of relationships of reachable sources are loaded parts *)
+Lemma target_present x rs r : reachable E p x -> rels_for E p x = Some rs -> In r rs ->
+  is_ext r = false -> In (resolve (baseURI x) (r_target r)) (part_names E p).
+Proof.
+  intros Hx Hrs Hin He. apply (proj1 part_names_spec). split.
+  - eapply r1; [exact Hx|]. rewrite (succs_rels _ _ Hrs). apply int_target_in; auto.
+  - destruct (wf_rels x Hx) as (rs' & Hrs' & _ & H). rewrite Hrs in Hrs'. inversion Hrs'; subst rs'.
+    apply (H r Hin); auto.
+Qed.
+
+Lemma load_rels_wf x : reachable E p x ->
+  load_rels E p (fun n => mem_str n (part_names E p)) x
+  = Ok (map (conv_rel x) (rels_or_nil E p x)).
+Proof.
+  intros Hx. destruct (wf_rels x Hx) as (rs & Hrs & Hnd & H).
+  unfold load_rels. rewrite (rels_or_nil_eq _ _ Hrs). rewrite valid_rels_all.
+  - simpl. rewrite lrels_dict_id; auto. rewrite conv_rel_ids; auto.
+  - intros r Hin. split; [apply (H r Hin)|]. intros He. apply mem_str_In.
+    eapply target_present; eauto.
+Qed.
+
+(** the part the loader builds for a name *)
+Definition blob_or (c : cts) (n : str) : blob :=
+  match lookup n p with
+  | Some b => if is_xml_ct E (ct_or c n)
+              then match reser E b with Some b' => b' | None => b end else b
+  | None => enc_rels E []
+  end.
+
+Definition spec_part (c : cts) (n : str) : part blob :=
+  mkPart n (ct_or c n) (blob_or c n) (map (conv_rel n) (rels_or_nil E p n)).
+
+Definition spec_pkg (c : cts) : pkg blob :=
+  mkPkg (map (conv_rel root) (rels_or_nil E p root)) (map (spec_part c) (part_names E p)).
+
+Lemma load_wf : exists cb c, lookup ct_uri p = Some cb /\ dec_ct E cb = Some c /\
+  load E p = Ok (spec_pkg c).
+Proof.
+  destruct wf_ct as (cb & c & Hcb & Hc & Hparts). exists cb, c. repeat split; auto.
+  unfold load. rewrite Hcb, Hc.
+  destruct names_spec as [Hn1 Hn2]. destruct part_names_spec as [Hp1 Hp2].
+  assert (Hdec : forallb (fun n => match rels_for E p n with Some _ => true | None => false end)
+                         (xml_rels_names E p) = true).
+  { apply forallb_forall. intros x Hx. apply Hn1 in Hx. destruct (wf_rels x Hx) as (rs & -> & _). auto. }
+  rewrite Hdec. cbn [negb].
+  rewrite (mapM_ok (load_part E p c) (fun n => (n, ct_or c n, blob_or c n))).
+  2:{ intros x Hx. apply Hp1 in Hx as [Hr Hne]. destruct (Hparts x Hr Hne) as (ct & b & Hct & Hb & Hx).
+      unfold load_part, blob_or, ct_or. rewrite Hct. simpl. rewrite Hb.
+      destruct (is_xml_ct E ct) eqn:Ex; auto. destruct (Hx eq_refl) as (b' & ->). reflexivity. }
+  cbn [bind].
+  rewrite (mapM_ok _ (fun pr : str * str * blob => let '(n, ct, b) := pr in
+                        mkPart n ct b (map (conv_rel n) (rels_or_nil E p n)))).
+  2:{ intros [[n ct] b] Hin. apply in_map_iff in Hin as (x & Hx & Hin). inversion Hx; subst.
+      apply Hp1 in Hin as [Hr _]. rewrite load_rels_wf by auto. reflexivity. }
+  cbn [bind]. rewrite load_rels_wf by apply r0. cbn [bind].
+  unfold spec_pkg. rewrite map_map. reflexivity.
+Qed.
+End Load.
+
+(** ---- iter_parts on the loaded package ---- *)
+
+Section Iter.
+Context {blob : Type}.
+Variable E : env blob.
+Variable p : phys blob.
+Hypothesis Hwf : wf E p.
+Variable c : cts.
+
+Notation k := (spec_pkg E p c).
+Notation pn := (part_names E p).
+
+Lemma find_spec_part n l :
+  find (fun pt : part blob => str_eqb (p_name pt) n) (map (spec_part E p c) l)
+  = if mem_str n l then Some (spec_part E p c n) else None.
+Proof.
+  induction l as [|x l IH]; simpl; auto. unfold mem_str in *. simpl.
+  rewrite (str_eqb_sym n x). destruct (str_eqb_spec x n) as [->|Hn]; simpl; auto.
+Qed.
+
+Lemma find_part_spec n : find_part k n = if mem_str n pn then Some (spec_part E p c n) else None.
+Proof. unfold find_part. simpl. apply find_spec_part. Qed.
+
+Lemma lsuccs_spec n : lsuccs k n = if mem_str n pn then succs E p n else [].
+Proof.
+  unfold lsuccs. rewrite find_part_spec. destruct (mem_str n pn) eqn:Em; auto.
+  apply mem_str_In in Em. apply (proj1 (part_names_spec E p Hwf)) in Em as [Hr _].
+  destruct (wf_rels E p Hwf n Hr) as (rs & Hrs & _). simpl.
+  rewrite (rels_or_nil_eq E p _ _ Hrs), lint_targets_conv, (succs_rels E p _ _ Hrs). reflexivity.
+Qed.
+
+Lemma succs_part_names x y : reachable E p x -> In y (succs E p x) -> In y pn.
+Proof.
+  intros Hx Hy. destruct (wf_rels E p Hwf x Hx) as (rs & Hrs & _).
+  rewrite (succs_rels E p _ _ Hrs) in Hy. unfold int_targets in Hy.
+  apply in_map_iff in Hy as (r & <- & Hr). apply filter_In in Hr as [Hr He].
+  apply negb_true_iff in He. eapply target_present; eauto.
+Qed.
+
+Lemma k_rels_targets : lint_targets (k_rels k) = succs E p root.
+Proof.
+  simpl. destruct (wf_rels E p Hwf root (r0 _ _)) as (rs & Hrs & _).
+  rewrite (rels_or_nil_eq E p _ _ Hrs), lint_targets_conv, (succs_rels E p _ _ Hrs). reflexivity.
+Qed.
+
+Lemma reach_l_in y x : reach (lsuccs k) y x -> In y pn -> In x pn.
+Proof.
+  induction 1; auto. intros Hy. specialize (IHreach Hy).
+  rewrite lsuccs_spec in H0. apply (proj2 (mem_str_In _ _)) in IHreach as Hm. rewrite Hm in H0.
+  apply (proj1 (part_names_spec E p Hwf)) in IHreach as [Hr _]. eapply succs_part_names; eauto.
+Qed.
+
+Lemma reachable_via_l x : reachable E p x -> x <> root ->
+  exists y, In y (succs E p root) /\ reach (lsuccs k) y x.
+Proof.
+  induction 1 as [|x' y Hr IH Hy]; [congruence|]. intros Hne.
+  destruct (str_eq_dec x' root) as [->|Hn'].
+  - exists y. split; auto. apply r0.
+  - destruct (IH Hn') as (y0 & Hy0 & Hr0). exists y0. split; auto.
+    eapply r1; [exact Hr0|]. rewrite lsuccs_spec.
+    assert (Hin : In x' pn) by (apply (proj1 (part_names_spec E p Hwf)); auto).
+    apply (proj2 (mem_str_In _ _)) in Hin. rewrite Hin. exact Hy.
+Qed.
+
+Lemma iter_part_names_spec :
+  (forall x, In x (iter_part_names k) <-> (reachable E p x /\ x <> root))
+  /\ NoDup (iter_part_names k).
+Proof.
+  unfold iter_part_names, fuel_of. rewrite k_rels_targets.
+  destruct (walk_reach (lsuccs k) (fun x => In x pn) pn) with (ys := succs E p root)
+    (fuel := S (length (k_parts k))) as [H1 H2].
+  - intros x y Hx Hy. eapply reach_l_in; [|exact Hx]. eapply r1; [apply r0|exact Hy].
+  - auto.
+  - intros y Hy. eapply succs_part_names; [apply r0|exact Hy].
+  - simpl. rewrite map_length. lia.
+  - split.
+    + intros x. rewrite <- in_rev, H1. split.
+      * intros (y & Hy & Hr). apply (proj1 (part_names_spec E p Hwf)).
+        eapply reach_l_in; [exact Hr|]. eapply succs_part_names; [apply r0|exact Hy].
+      * intros [Hr Hn]. apply reachable_via_l; auto.
+    + apply NoDup_rev. exact H2.
+Qed.
+
+Lemma iter_parts_spec : iter_parts k = map (spec_part E p c) (iter_part_names k).
+Proof.
+  unfold iter_parts. destruct iter_part_names_spec as [H1 _].
+  assert (H : forall x, In x (iter_part_names k) -> In x pn).
+  { intros x Hx. apply (proj1 (part_names_spec E p Hwf)). apply H1. exact Hx. }
+  clear H1. revert H. generalize (iter_part_names k). intros l.
+  induction l as [|x l IH]; intros H; simpl; auto.
+  rewrite find_part_spec. rewrite (proj2 (mem_str_In _ _)) by (apply H; simpl; auto).
+  simpl. f_equal. apply IH. intros y Hy. apply H; simpl; auto.
+Qed.
+End Iter.
+
+(** ---- shapes of names ---- *)
+
+Definition seg_free (L : list str) : Prop := Forall (fun s => nfree c_slash s = true) L.
+
+Lemma render_inj P Q : P <> [] -> Q <> [] -> seg_free P -> seg_free Q -> render P = render Q -> P = Q.
+Proof.
+  intros HP HQ FP FQ H. pose proof (split_on_render P HP FP) as H1.
+  pose proof (split_on_render Q HQ FQ) as H2. rewrite H in H1. rewrite H1 in H2. congruence.
+Qed.
+
+Lemma nfree_app c a b : nfree c (a ++ b) = nfree c a && nfree c b.
+Proof. unfold nfree. apply forallb_app. Qed.
+
+Lemma seg_free_rels d f : wf_name d -> nfree c_slash f = true -> seg_free (d ++ [s_rels_dir; f]).
+Proof.
+  intros Hd Hf. apply Forall_app. split; [apply wf_name_nfree; auto|].
+  repeat constructor; auto.
+Qed.
+
+Lemma part_name_split x : part_name x ->
+  exists d f, x = render (d ++ [f]) /\ wf_name d /\ wf_segb f = true /\
+              rels_item_name x = render (d ++ [s_rels_dir; f ++ s_rels_ext]).
+Proof.
+  intros (P & HP & Hne & -> & _).
+  destruct (rev_cons_exists P Hne) as (d & f & ->).
+  apply Forall_app in HP as [Hd Hf]. inversion Hf; subst.
+  exists d, f. repeat split; auto.
+  unfold rels_item_name. rewrite rels_uri_render; auto.
+Qed.
+
+Lemma rels_item_root : rels_item_name root = render [s_rels_dir; s_rels_ext].
+Proof. reflexivity. Qed.
+
+Lemma ct_uri_render : ct_uri = render [tl ct_uri].
+Proof. reflexivity. Qed.
+
+(** a name shaped like a rels item: the last directory is _rels *)
+Definition rels_shaped (x : str) : Prop :=
+  exists d f, wf_name d /\ nfree c_slash f = true /\ x = render (d ++ [s_rels_dir; f]).
+
+Lemma rels_item_shaped x : part_name x -> rels_shaped (rels_item_name x).
+Proof.
+  intros H. destruct (part_name_split x H) as (d & f & _ & Hd & Hf & ->).
+  exists d, (f ++ s_rels_ext). repeat split; auto.
+  rewrite nfree_app. apply wf_segb_inv in Hf as (_ & Hf & _). rewrite Hf. reflexivity.
+Qed.
+
+Lemma rels_item_root_shaped : rels_shaped (rels_item_name root).
+Proof. exists [], s_rels_ext. repeat split; auto. constructor. Qed.
+
+Lemma app_two_ne_nil {A} (d : list A) a b : d ++ [a; b] <> [].
+Proof. destruct d; discriminate. Qed.
+
+Lemma part_name_not_shaped x : part_name x -> ~ rels_shaped x.
+Proof.
+  intros (P & HP & Hne & -> & _ & Hns) (d & f & Hd & Hf & Heq).
+  apply Hns. exists d, f. apply render_inj; auto.
+  - apply app_two_ne_nil.
+  - apply wf_name_nfree; auto.
+  - apply seg_free_rels; auto.
+Qed.
+
+Lemma ct_uri_not_shaped : ~ rels_shaped ct_uri.
+Proof.
+  intros (d & f & Hd & Hf & Heq). rewrite ct_uri_render in Heq.
+  apply render_inj in Heq.
+  - destruct d as [|a [|b d]]; discriminate.
+  - discriminate.
+  - apply app_two_ne_nil.
+  - repeat constructor.
+  - apply seg_free_rels; auto.
+Qed.
+
+Lemma rels_item_inj x y : part_name x -> part_name y -> rels_item_name x = rels_item_name y -> x = y.
+Proof.
+  intros Hx Hy H.
+  destruct (part_name_split x Hx) as (d & f & -> & Hd & Hf & Ex).
+  destruct (part_name_split y Hy) as (d' & f' & -> & Hd' & Hf' & Ey).
+  rewrite Ex, Ey in H. apply render_inj in H.
+  - change [s_rels_dir; f ++ s_rels_ext] with ([s_rels_dir] ++ [f ++ s_rels_ext]) in H.
+    change [s_rels_dir; f' ++ s_rels_ext] with ([s_rels_dir] ++ [f' ++ s_rels_ext]) in H.
+    rewrite !app_assoc in H. apply app_inj_tail in H as [H1 H2].
+    apply app_inj_tail in H1 as [H1 _]. apply app_inv_tail in H2. subst. reflexivity.
+  - apply app_two_ne_nil.
+  - apply app_two_ne_nil.
+  - apply seg_free_rels; auto. rewrite nfree_app. apply wf_segb_inv in Hf as (_ & -> & _). reflexivity.
+  - apply seg_free_rels; auto. rewrite nfree_app. apply wf_segb_inv in Hf' as (_ & -> & _). reflexivity.
+Qed.
+
+Lemma rels_item_not_root x : part_name x -> rels_item_name x <> rels_item_name root.
+Proof.
+  intros Hx H. destruct (part_name_split x Hx) as (d & f & _ & Hd & Hf & Ex).
+  rewrite Ex, rels_item_root in H. apply render_inj in H.
+  - destruct d as [|a d]; simpl in H.
+    + inversion H as [H1]. apply wf_segb_inv in Hf as (Hne & _).
+      apply (f_equal (@length _)) in H1. rewrite app_length in H1. destruct f; [congruence|simpl in H1; lia].
+    + apply (f_equal (@length _)) in H. simpl in H. rewrite app_length in H. simpl in H. lia.
+  - apply app_two_ne_nil.
+  - discriminate.
+  - apply seg_free_rels; auto. rewrite nfree_app. apply wf_segb_inv in Hf as (_ & -> & _). reflexivity.
+  - repeat constructor.
+Qed.
+
+Lemma NoDup_app_intro {A} (a b : list A) :
+  NoDup a -> NoDup b -> (forall x, In x a -> ~ In x b) -> NoDup (a ++ b).
+Proof.
+  induction a as [|x a IH]; simpl; auto. intros Ha Hb Hd. inversion Ha; subst.
+  constructor.
+  - intros Hin. apply in_app_or in Hin as [Hin|Hin]; [auto|]. apply (Hd x); auto.
+  - apply IH; auto.
+Qed.
+
+Lemma NoDup_flat_map {A B} (f : A -> list B) l :
+  NoDup l -> (forall x, In x l -> NoDup (f x)) ->
+  (forall x y z, In x l -> In y l -> x <> y -> In z (f x) -> ~ In z (f y)) ->
+  NoDup (flat_map f l).
+Proof.
+  induction l as [|a l IH]; simpl; intros Hnd Hf Hd; [constructor|].
+  inversion Hnd; subst. apply NoDup_app_intro.
+  - apply Hf; auto.
+  - apply IH; auto. intros x y z Hx Hy. apply Hd; auto.
+  - intros z Hz Hin. apply in_flat_map in Hin as (y & Hy & Hzy).
+    apply (Hd a y z); auto. intros ->. auto.
+Qed.
+
+(** ---- the saved package: member names ---- *)
+
+Section SaveNames.
+Context {blob : Type}.
+Variable E : env blob.
+Variable p : phys blob.
+Hypothesis Hwf : wf E p.
+Variable c : cts.
+
+Notation k := (spec_pkg E p c).
+
+Definition mnames (n : str) : list str :=
+  n :: match rels_or_nil E p n with [] => [] | _ => [rels_item_name n] end.
+
+Lemma part_members_names n : map fst (part_members E (spec_part E p c n)) = mnames n.
+Proof. unfold part_members, mnames. simpl. destruct (rels_or_nil E p n); reflexivity. Qed.
+
+Lemma save_names :
+  map fst (save E k) = ct_uri :: rels_item_name root :: flat_map mnames (iter_part_names k).
+Proof.
+  unfold save. cbn [map fst]. f_equal. f_equal. rewrite (iter_parts_spec E p Hwf c).
+  induction (iter_part_names k) as [|n l IH]; [reflexivity|].
+  cbn [map flat_map]. rewrite map_app, IH, part_members_names. reflexivity.
+Qed.
+
+Lemma iter_name_part_name n : In n (iter_part_names k) -> part_name n.
+Proof.
+  intros H. apply (proj1 (iter_part_names_spec E p Hwf c)) in H as [Hr Hn].
+  apply (wf_part_name E p Hwf); auto.
+Qed.
+
+Lemma part_name_ne_ct x : part_name x -> x <> ct_uri.
+Proof. intros (P & _ & _ & _ & H & _). exact H. Qed.
+
+Lemma save_names_NoDup : NoDup (map fst (save E k)).
+Proof.
+  rewrite save_names.
+  assert (Hin : forall z, In z (flat_map mnames (iter_part_names k)) ->
+            exists n, In n (iter_part_names k) /\ (z = n \/ z = rels_item_name n)).
+  { intros z Hz. apply in_flat_map in Hz as (n & Hn & Hz). exists n. split; auto.
+    unfold mnames in Hz. destruct Hz as [<-|Hz]; auto.
+    destruct (rels_or_nil E p n); [destruct Hz|]. destruct Hz as [<-|[]]; auto. }
+  constructor; [|constructor].
+  - intros [H|H].
+    + apply ct_uri_not_shaped. rewrite <- H. apply rels_item_root_shaped.
+    + apply Hin in H as (n & Hn & [H | H]).
+      * apply (part_name_ne_ct n); auto. apply iter_name_part_name; auto.
+      * apply ct_uri_not_shaped. rewrite H. apply rels_item_shaped. apply iter_name_part_name; auto.
+  - intros H. apply Hin in H as (n & Hn & [H|H]).
+    + apply (part_name_not_shaped n); [apply iter_name_part_name; auto|].
+      rewrite <- H. apply rels_item_root_shaped.
+    + symmetry in H. apply rels_item_not_root in H; auto. apply iter_name_part_name; auto.
+  - apply NoDup_flat_map.
+    + apply (proj2 (iter_part_names_spec E p Hwf c)).
+    + intros n Hn. unfold mnames. destruct (rels_or_nil E p n); repeat constructor; simpl; auto.
+      intros [H|[]]. apply (part_name_not_shaped n); [apply iter_name_part_name; auto|].
+      rewrite <- H. apply rels_item_shaped. apply iter_name_part_name; auto.
+    + intros x y z Hx Hy Hne Hzx Hzy.
+      pose proof (iter_name_part_name x Hx) as Px. pose proof (iter_name_part_name y Hy) as Py.
+      assert (Hz1 : z = x \/ z = rels_item_name x).
+      { unfold mnames in Hzx. destruct Hzx as [<-|Hz]; auto.
+        destruct (rels_or_nil E p x); [destruct Hz|]. destruct Hz as [<-|[]]; auto. }
+      assert (Hz2 : z = y \/ z = rels_item_name y).
+      { unfold mnames in Hzy. destruct Hzy as [<-|Hz]; auto.
+        destruct (rels_or_nil E p y); [destruct Hz|]. destruct Hz as [<-|[]]; auto. }
+      destruct Hz1 as [-> | ->], Hz2 as [H|H].
+      * congruence.
+      * apply (part_name_not_shaped x Px). rewrite H. apply rels_item_shaped; auto.
+      * apply (part_name_not_shaped y Py). rewrite <- H. apply rels_item_shaped; auto.
+      * apply Hne. apply rels_item_inj; auto.
+Qed.
+
+Lemma save_names_spec n :
+  In n (map fst (save E k)) <->
+  (n = ct_uri \/ n = rels_item_name root \/
+   exists x, reachable E p x /\ x <> root /\
+             (n = x \/ (n = rels_item_name x /\ rels_or_nil E p x <> []))).
+Proof.
+  rewrite save_names. simpl. rewrite in_flat_map.
+  split.
+  - intros [<-|[<-|(x & Hx & Hn)]]; auto. right; right.
+    apply (proj1 (iter_part_names_spec E p Hwf c)) in Hx as [Hr Hne].
+    exists x. repeat split; auto. unfold mnames in Hn. destruct Hn as [<-|Hn]; auto.
+    destruct (rels_or_nil E p x); [destruct Hn|]. destruct Hn as [<-|[]]. right; split; auto; discriminate.
+  - intros [-> | [-> | (x & Hr & Hne & Hn)]]; auto. right; right. exists x. split.
+    + apply (proj1 (iter_part_names_spec E p Hwf c)); auto.
+    + unfold mnames. destruct Hn as [-> | [-> Hn]]; simpl; auto.
+      destruct (rels_or_nil E p x); [congruence|simpl; auto].
+Qed.
+End SaveNames.
+
+Lemma c01_reach {blob} (E : env blob) p : wf E p ->
+  exists k, load E p = Ok k /\ NoDup (map p_name (iter_parts k)) /\
+    forall x, In x (map p_name (iter_parts k)) <-> (reachable E p x /\ x <> root).
+Proof.
+  intros Hwf. destruct (load_wf E p Hwf) as (cb & c & _ & _ & Hl). exists (spec_pkg E p c).
+  split; auto. rewrite (iter_parts_spec E p Hwf c), map_map. simpl. rewrite map_id.
+  destruct (iter_part_names_spec E p Hwf c) as [H1 H2]. split; auto.
+Qed.
+
+Lemma c01_members {blob} (E : env blob) p : wf E p ->
+  exists k, load E p = Ok k /\ NoDup (map fst (save E k)) /\
+    forall n, In n (map fst (save E k)) <->
+      (n = ct_uri \/ n = rels_item_name root \/
+       exists x, reachable E p x /\ x <> root /\
+                 (n = x \/ (n = rels_item_name x /\ rels_or_nil E p x <> []))).
+Proof.
+  intros Hwf. destruct (load_wf E p Hwf) as (cb & c & _ & _ & Hl). exists (spec_pkg E p c).
+  split; auto. split; [apply save_names_NoDup; auto|apply save_names_spec; auto].
+Qed.
+
+(** ---- sorting and dict lemmas ---- *)
+
+Lemma insert_by_perm {A} (leb : A -> A -> bool) x l : Permutation (insert_by leb x l) (x :: l).
+Proof.
+  induction l as [|y l IH]; simpl; auto. destruct (leb x y); auto.
+  eapply perm_trans; [apply perm_skip, IH|apply perm_swap].
+Qed.
+
+Lemma sort_by_perm {A} (leb : A -> A -> bool) l : Permutation (sort_by leb l) l.
+Proof.
+  induction l as [|x l IH]; simpl; auto.
+  eapply perm_trans; [apply insert_by_perm|apply perm_skip, IH].
+Qed.
+
+Lemma lookup_perm {V} k (a b : list (str * V)) :
+  Permutation a b -> NoDup (map fst a) -> lookup k a = lookup k b.
+Proof.
+  intros HP Hnd. destruct (lookup k a) eqn:Ea.
+  - symmetry. apply lookup_NoDup_In.
+    + eapply Permutation_NoDup; [apply Permutation_map, HP|auto].
+    + eapply Permutation_in; [exact HP|]. apply lookup_In; auto.
+  - symmetry. apply lookup_None. apply lookup_None in Ea. intros Hin. apply Ea.
+    eapply Permutation_in; [apply Permutation_map, Permutation_sym, HP|auto].
+Qed.
+
+Lemma lookup_sort {V} k (leb : str * V -> str * V -> bool) l :
+  NoDup (map fst l) -> lookup k (sort_by leb l) = lookup k l.
+Proof.
+  intros H. apply lookup_perm; [apply sort_by_perm|].
+  eapply Permutation_NoDup; [apply Permutation_map, Permutation_sym, sort_by_perm|auto].
+Qed.
+
+Lemma dict_set_fresh {V} k (v : V) d : ~ In k (map fst d) -> dict_set k v d = d ++ [(k, v)].
+Proof.
+  induction d as [|[k' v'] d IH]; simpl; auto. intros H.
+  destruct (str_eqb_spec k' k) as [->|Hn]; [tauto|]. rewrite IH; auto.
+Qed.
+
+Lemma dict_set_keys {V} k (v : V) d :
+  map fst (dict_set k v d) = if mem_str k (map fst d) then map fst d else map fst d ++ [k].
+Proof.
+  induction d as [|[k' v'] d IH]; simpl; auto. unfold mem_str in *. simpl.
+  rewrite (str_eqb_sym k k'). destruct (str_eqb_spec k' k) as [->|Hn]; simpl; auto.
+  rewrite IH. destruct (existsb (str_eqb k) (map fst d)); auto.
+Qed.
+
+Lemma dict_set_NoDup {V} k (v : V) d : NoDup (map fst d) -> NoDup (map fst (dict_set k v d)).
+Proof.
+  intros H. rewrite dict_set_keys. destruct (mem_str k (map fst d)) eqn:E; auto.
+  apply mem_str_nIn in E. apply NoDup_app_intro; auto.
+  - repeat constructor; simpl; auto.
+  - intros x Hx [<-|[]]. auto.
+Qed.
+
+Lemma lookup_dict_set_same {V} k (v : V) d : lookup k (dict_set k v d) = Some v.
+Proof.
+  induction d as [|[k' v'] d IH]; simpl.
+  - rewrite str_eqb_refl; auto.
+  - destruct (str_eqb_spec k' k) as [->|Hn]; simpl.
+    + rewrite str_eqb_refl; auto.
+    + apply str_eqb_neq in Hn. rewrite Hn. auto.
+Qed.
+
+Lemma lookup_dict_set_other {V} k k2 (v : V) d : k2 <> k -> lookup k2 (dict_set k v d) = lookup k2 d.
+Proof.
+  intros Hne. induction d as [|[k' v'] d IH]; simpl.
+  - apply not_eq_sym in Hne. apply str_eqb_neq in Hne. rewrite Hne; auto.
+  - destruct (str_eqb_spec k' k) as [->|Hn]; simpl.
+    + apply not_eq_sym in Hne. apply str_eqb_neq in Hne. rewrite Hne; auto.
+    + destruct (str_eqb k' k2); auto.
+Qed.
+
+Lemma dict_of_acc {V} (l : list (str * V)) : forall acc, NoDup (map fst (acc ++ l)) ->
+  fold_left (fun d kv => dict_set (fst kv) (snd kv) d) l acc = acc ++ l.
+Proof.
+  induction l as [|[k v] l IH]; intros acc H; simpl.
+  - rewrite app_nil_r; auto.
+  - rewrite dict_set_fresh.
+    + rewrite IH; rewrite <- app_assoc; auto.
+    + rewrite map_app in H. simpl in H. apply NoDup_remove_2 in H. intros Hc. apply H.
+      apply in_or_app; auto.
+Qed.
+
+Lemma dict_of_id {V} (l : list (str * V)) : NoDup (map fst l) -> dict_of l = l.
+Proof. intros H. unfold dict_of. rewrite dict_of_acc; auto. Qed.
+
+Lemma lower_c_idem c : lower_c (lower_c c) = lower_c c.
+Proof.
+  unfold lower_c. destruct ((65 <=? c)%N && (c <=? 90)%N) eqn:E; [|rewrite E; auto].
+  apply andb_true_iff in E as [E1 E2]. apply N.leb_le in E1, E2.
+  assert (H : ((65 <=? c + 32)%N && (c + 32 <=? 90)%N) = false).
+  { apply andb_false_iff. right. apply N.leb_gt. lia. }
+  rewrite H. reflexivity.
+Qed.
+
+Lemma lower_idem s : lower (lower s) = lower s.
+Proof. unfold lower. rewrite map_map. apply map_ext. apply lower_c_idem. Qed.
+
+(** lookup through lower-cased keys when lower-casing is injective on the keys at hand *)
+Lemma lookup_lower_keys q (l : list (str * str)) :
+  (forall k1 k2, In k1 (q :: map fst l) -> In k2 (q :: map fst l) -> lower k1 = lower k2 -> k1 = k2) ->
+  NoDup (map fst l) ->
+  lookup (lower q) (lower_keys l) = lookup q l.
+Proof.
+  intros Hinj Hnd. unfold lower_keys.
+  assert (Hnd' : NoDup (map fst (map (fun kv : str * str => (lower (fst kv), snd kv)) l))).
+  { rewrite map_map. simpl. clear - Hinj Hnd.
+    assert (H : forall k1 k2, In k1 (map fst l) -> In k2 (map fst l) -> lower k1 = lower k2 -> k1 = k2)
+      by (intros; apply Hinj; simpl; auto).
+    clear Hinj. induction l as [|[k v] l IH]; simpl; constructor.
+    - inversion Hnd; subst. intros Hin. apply in_map_iff in Hin as ([k' v'] & He & Hin). simpl in He.
+      apply H2. assert (k' = k); [|subst; apply (in_map fst) in Hin; auto].
+      apply H; simpl; auto. right. apply (in_map fst) in Hin. auto.
+    - inversion Hnd; subst. apply IH; auto. intros; apply H; simpl; auto. }
+  rewrite dict_of_id by auto. clear Hnd'.
+  assert (H : forall k, In k (map fst l) -> lower k = lower q -> k = q)
+    by (intros; apply Hinj; simpl; auto).
+  clear Hinj Hnd. induction l as [|[k v] l IH]; simpl; auto.
+  destruct (str_eqb_spec k q) as [->|Hn].
+  - rewrite str_eqb_refl. auto.
+  - destruct (str_eqb_spec (lower k) (lower q)) as [He|Hne].
+    + exfalso. apply Hn. apply H; simpl; auto.
+    + apply IH. intros; apply H; simpl; auto.
+Qed.
+
+Lemma lower_keys_lowered (l : list (str * str)) :
+  NoDup (map fst l) -> (forall k, In k (map fst l) -> lower k = k) -> lower_keys l = l.
+Proof.
+  intros Hnd Hl. unfold lower_keys.
+  assert (E : map (fun kv : str * str => (lower (fst kv), snd kv)) l = l).
+  { clear Hnd. induction l as [|[k v] l IH]; simpl; auto. rewrite Hl by (simpl; auto).
+    f_equal. apply IH. intros; apply Hl; simpl; auto. }
+  rewrite E. apply dict_of_id; auto.
+Qed.
+
+(** ---- _ContentTypesItem._defaults_and_overrides ---- *)
+
+Section CTI.
+Context {blob : Type}.
+Variable E : env blob.
+
+Definition pext (pt : part blob) : str := lower (ext (p_name pt)).
+Definition intab (pt : part blob) : bool := in_table (deftbl E) (pext pt) (p_ct pt).
+
+Lemma cti_step_eq acc pt :
+  cti_step E acc pt = if intab pt then (dict_set (pext pt) (p_ct pt) (fst acc), snd acc)
+                      else (fst acc, dict_set (p_name pt) (p_ct pt) (snd acc)).
+Proof. reflexivity. Qed.
+
+Lemma cti_overrides L : forall D0 O0, NoDup (map fst O0 ++ map p_name L) ->
+  snd (fold_left (cti_step E) L (D0, O0))
+  = O0 ++ map (fun pt => (p_name pt, p_ct pt)) (filter (fun pt => negb (intab pt)) L).
+Proof.
+  induction L as [|a L IH]; intros D0 O0 Hnd; cbn [fold_left filter map].
+  - rewrite app_nil_r. reflexivity.
+  - rewrite cti_step_eq. cbn [fst snd]. destruct (intab a) eqn:Ea; cbn [negb].
+    + apply IH. simpl in Hnd. apply NoDup_remove_1 in Hnd. exact Hnd.
+    + rewrite dict_set_fresh.
+      * rewrite IH.
+        -- rewrite <- app_assoc. reflexivity.
+        -- rewrite map_app. simpl. rewrite <- app_assoc. simpl. exact Hnd.
+      * simpl in Hnd. apply NoDup_remove_2 in Hnd. intros Hin. apply Hnd. apply in_or_app; auto.
+Qed.
+
+Lemma cti_defaults_val L : forall D0 O0 key v,
+  lookup key (fst (fold_left (cti_step E) L (D0, O0))) = Some v ->
+  (exists pt, In pt L /\ intab pt = true /\ pext pt = key /\ p_ct pt = v) \/
+  (lookup key D0 = Some v /\ forall pt, In pt L -> intab pt = true -> pext pt <> key).
+Proof.
+  induction L as [|a L IH]; intros D0 O0 key v H; cbn [fold_left] in H.
+  - right. split; [auto|intros pt []].
+  - rewrite cti_step_eq in H. cbn [fst snd] in H. destruct (intab a) eqn:Ea.
+    + apply IH in H as [(pt & Hin & H1 & H2 & H3)|[H1 H2]].
+      * left. exists pt. simpl; auto.
+      * destruct (str_eq_dec key (pext a)) as [->|Hne].
+        -- rewrite lookup_dict_set_same in H1. inversion H1; subst. left. exists a. simpl; auto.
+        -- rewrite lookup_dict_set_other in H1 by auto. right. split; auto.
+           intros pt [<-|Hin] Hi; auto.
+    + apply IH in H as [(pt & Hin & H1 & H2 & H3)|[H1 H2]].
+      * left. exists pt. simpl; auto.
+      * right. split; auto. intros pt [<-|Hin] Hi; [congruence|auto].
+Qed.
+
+Lemma cti_defaults_mono L : forall D0 O0 key, (exists v, lookup key D0 = Some v) ->
+  exists v, lookup key (fst (fold_left (cti_step E) L (D0, O0))) = Some v.
+Proof.
+  induction L as [|a L IH]; intros D0 O0 key H; cbn [fold_left]; auto.
+  rewrite cti_step_eq. cbn [fst snd]. destruct (intab a); apply IH; auto.
+  destruct (str_eq_dec key (pext a)) as [->|Hne].
+  - rewrite lookup_dict_set_same. eauto.
+  - rewrite lookup_dict_set_other; auto.
+Qed.
+
+Lemma cti_defaults_key L : forall D0 O0 pt, In pt L -> intab pt = true ->
+  exists v, lookup (pext pt) (fst (fold_left (cti_step E) L (D0, O0))) = Some v.
+Proof.
+  induction L as [|a L IH]; intros D0 O0 pt Hin Hi; [destruct Hin|].
+  destruct Hin as [<-|Hin]; cbn [fold_left].
+  - rewrite cti_step_eq, Hi. cbn [fst snd]. apply cti_defaults_mono.
+    rewrite lookup_dict_set_same. eauto.
+  - destruct (cti_step E (D0, O0) a) as [D1 O1]. apply IH; auto.
+Qed.
+
+Lemma cti_defaults_keys L : forall D0 O0,
+  NoDup (map fst D0) -> (forall k, In k (map fst D0) -> lower k = k) ->
+  NoDup (map fst (fst (fold_left (cti_step E) L (D0, O0)))) /\
+  (forall k, In k (map fst (fst (fold_left (cti_step E) L (D0, O0)))) -> lower k = k).
+Proof.
+  induction L as [|a L IH]; intros D0 O0 Hnd Hl; cbn [fold_left]; auto.
+  rewrite cti_step_eq. cbn [fst snd]. destruct (intab a); apply IH; auto.
+  - apply dict_set_NoDup; auto.
+  - intros k0. rewrite dict_set_keys. destruct (mem_str (pext a) (map fst D0)); auto.
+    intros Hin. apply in_app_or in Hin as [Hin|[<-|[]]]; auto. apply lower_idem.
+Qed.
+End CTI.
+
+(** ---- the saved package: payloads, content types, relationships ---- *)
+
+Lemma rels_uri_part x : part_name x -> rels_uri x = Ok (rels_item_name x).
+Proof.
+  intros (P & HP & Hne & -> & _). destruct (rev_cons_exists P Hne) as (d & f & ->).
+  apply Forall_app in HP as [Hd Hf]. inversion Hf; subst.
+  unfold rels_item_name. rewrite rels_uri_render; auto.
+Qed.
+
+Lemma rels_uri_root_ok : rels_uri root = Ok (rels_item_name root).
+Proof. reflexivity. Qed.
+
+Lemma resolve_rel_ref src t : (src = root \/ part_name src) -> part_name t ->
+  resolve (baseURI src) (rel_ref t (baseURI src)) = t.
+Proof.
+  intros Hs (Q & HQ & _ & -> & _).
+  assert (exists P, wf_name P /\ src = render P) as (P & HP & ->).
+  { destruct Hs as [->|(P & HP & _ & -> & _)]; [exists []; split; [constructor|reflexivity]|eauto]. }
+  pose proof (roundtrip P Q HP HQ) as H. unfold rel_ref, resolve.
+  destruct (relative_ref (render Q) (baseURI (render P))) as [ref|e]; simpl in H; [|discriminate].
+  rewrite H. reflexivity.
+Qed.
+
+Section SaveContent.
+Context {blob : Type}.
+Variable E : env blob.
+Variable p : phys blob.
+Hypothesis Hwf : wf E p.
+Variable cb : blob.
+Variable c : cts.
+Hypothesis Hcb : lookup ct_uri p = Some cb.
+Hypothesis Hc : dec_ct E cb = Some c.
+Hypothesis Hcodec : codec_ok E.
+
+Notation k := (spec_pkg E p c).
+Notation names := (iter_part_names (spec_pkg E p c)).
+
+Lemma wf_ct_c x : reachable E p x -> x <> root ->
+  exists ct b, ct_lookup c x = Ok ct /\ lookup x p = Some b /\
+               (is_xml_ct E ct = true -> exists b', reser E b = Some b').
+Proof.
+  destruct (wf_ct E p Hwf) as (cb' & c' & Hcb' & Hc' & H). rewrite Hcb in Hcb'. inversion Hcb'; subst cb'.
+  rewrite Hc in Hc'. inversion Hc'; subst c'. exact (H x).
+Qed.
+
+Lemma ct_in_c x : ct_in E p x = ct_lookup c x.
+Proof. unfold ct_in. rewrite Hcb, Hc. reflexivity. Qed.
+
+Lemma names_reach x : In x names <-> (reachable E p x /\ x <> root).
+Proof. apply (proj1 (iter_part_names_spec E p Hwf c)). Qed.
+
+Lemma in_save_part q : In q names -> In (q, blob_or E p c q) (save E k).
+Proof.
+  intros Hq. unfold save. right; right. rewrite (iter_parts_spec E p Hwf c).
+  apply in_flat_map. exists (spec_part E p c q). split; [apply in_map; auto|]. left. reflexivity.
+Qed.
+
+Lemma in_save_rels q : In q names -> rels_or_nil E p q <> [] ->
+  In (rels_item_name q, enc_rels E (out_rels q (map (conv_rel q) (rels_or_nil E p q)))) (save E k).
+Proof.
+  intros Hq Hne. unfold save. right; right. rewrite (iter_parts_spec E p Hwf c).
+  apply in_flat_map. exists (spec_part E p c q). split; [apply in_map; auto|].
+  unfold part_members. simpl. destruct (rels_or_nil E p q) as [|r rs]; [congruence|].
+  right. left. reflexivity.
+Qed.
+
+Lemma lookup_save_part q : In q names -> lookup q (save E k) = Some (blob_or E p c q).
+Proof.
+  intros Hq. apply lookup_NoDup_In; [apply save_names_NoDup; auto|apply in_save_part; auto].
+Qed.
+
+Lemma lookup_save_payload q ct b : reachable E p q -> q <> root -> ct_lookup c q = Ok ct ->
+  lookup q p = Some b ->
+  lookup q (save E k) = (if is_xml_ct E ct then reser E b else Some b).
+Proof.
+  intros Hr Hn Hct Hb. rewrite lookup_save_part by (apply names_reach; auto).
+  unfold blob_or, ct_or. rewrite Hb, Hct.
+  destruct (wf_ct_c q Hr Hn) as (ct' & b' & Hct' & Hb' & Hx). rewrite Hct in Hct'. inversion Hct'; subst ct'.
+  rewrite Hb in Hb'. inversion Hb'; subst b'.
+  destruct (is_xml_ct E ct); auto. destruct (Hx eq_refl) as (b2 & ->). reflexivity.
+Qed.
+
+(** relationships of a source, read back from the saved package *)
+Lemma rels_for_save src : (src = root \/ In src names) ->
+  rels_for E (save E k) src = Some (out_rels src (map (conv_rel src) (rels_or_nil E p src))).
+Proof.
+  destruct Hcodec as (Hdr & _ & _). intros [->|Hs].
+  - unfold rels_for. rewrite rels_uri_root_ok. unfold save. cbn [lookup].
+    assert (Hne : str_eqb ct_uri (rels_item_name root) = false) by reflexivity.
+    rewrite Hne, str_eqb_refl. apply Hdr.
+  - pose proof (iter_name_part_name E p Hwf c src Hs) as Hpn.
+    unfold rels_for. rewrite (rels_uri_part src Hpn).
+    destruct (rels_or_nil E p src) as [|r rs] eqn:Er.
+    + assert (Hnone : lookup (rels_item_name src) (save E k) = None).
+      { apply lookup_None. intros Hin. apply (save_names_spec E p Hwf c) in Hin as [H|[H|(x & Hx & Hne & [H|[H Hnn]])]].
+        - apply ct_uri_not_shaped. rewrite <- H. apply rels_item_shaped; auto.
+        - apply rels_item_not_root in H; auto.
+        - apply (part_name_not_shaped x); [apply (wf_part_name E p Hwf); auto|].
+          rewrite <- H. apply rels_item_shaped; auto.
+        - apply rels_item_inj in H; auto; [subst x; congruence|apply (wf_part_name E p Hwf); auto]. }
+      rewrite Hnone. reflexivity.
+    + rewrite (lookup_NoDup_In (rels_item_name src)
+                 (enc_rels E (out_rels src (map (conv_rel src) (r :: rs))))).
+      * apply Hdr.
+      * apply save_names_NoDup; auto.
+      * rewrite <- Er. apply in_save_rels; auto. congruence.
+Qed.
+
+Lemma rel_sem_roundtrip src r : (src = root \/ In src names) ->
+  In r (rels_or_nil E p src) ->
+  rel_sem src (out_rel src (conv_rel src r)) = rel_sem src r.
+Proof.
+  intros Hs Hin.
+  assert (Hr : reachable E p src).
+  { destruct Hs as [->|Hs]; [apply r0|apply names_reach in Hs; tauto]. }
+  destruct (wf_rels E p Hwf src Hr) as (rs & Hrs & _ & H).
+  rewrite (rels_or_nil_eq E p _ _ Hrs) in Hin. destruct (H r Hin) as [Hm Hnr].
+  unfold rel_sem, out_rel, conv_rel. cbn [l_ext l_id l_type l_target].
+  destruct (is_ext r) eqn:Ee; cbn [r_id r_type r_target r_mode is_ext]; auto.
+  rewrite resolve_rel_ref; auto.
+  - destruct Hs as [->|Hs]; auto. right. eapply iter_name_part_name; eauto.
+  - apply (wf_part_name E p Hwf); auto.
+    eapply r1; [exact Hr|]. rewrite (succs_rels E p _ _ Hrs). apply int_target_in; auto.
+Qed.
+
+Lemma rels_preserved src : (src = root \/ In src names) ->
+  exists rs rs', rels_for E p src = Some rs /\ rels_for E (save E k) src = Some rs' /\
+                 Permutation (map (rel_sem src) rs) (map (rel_sem src) rs').
+Proof.
+  intros Hs.
+  assert (Hr : reachable E p src).
+  { destruct Hs as [->|Hs']; [apply r0|apply names_reach in Hs'; tauto]. }
+  destruct (wf_rels E p Hwf src Hr) as (rs & Hrs & _).
+  exists rs, (out_rels src (map (conv_rel src) rs)). split; auto. split.
+  - rewrite rels_for_save by auto. rewrite (rels_or_nil_eq E p _ _ Hrs). reflexivity.
+  - unfold out_rels. rewrite map_map.
+    eapply perm_trans; [|apply Permutation_map, Permutation_sym, sort_by_perm].
+    rewrite map_map. apply Permutation_refl'. apply map_ext_in. intros r Hin. symmetry.
+    apply rel_sem_roundtrip; auto. rewrite (rels_or_nil_eq E p _ _ Hrs). auto.
+Qed.
+End SaveContent.
+
+Section SaveTypes.
+Context {blob : Type}.
+Variable E : env blob.
+Variable p : phys blob.
+Hypothesis Hwf : wf E p.
+Variable cb : blob.
+Variable c : cts.
+Hypothesis Hcb : lookup ct_uri p = Some cb.
+Hypothesis Hc : dec_ct E cb = Some c.
+Hypothesis Henv : env_ok E.
+Hypothesis Hnc : no_default_clash E p.
+
+Notation k := (spec_pkg E p c).
+Notation names := (iter_part_names (spec_pkg E p c)).
+Notation PL := (map (spec_part E p c) (iter_part_names (spec_pkg E p c))).
+
+Lemma PL_names : map p_name PL = names.
+Proof. rewrite map_map. simpl. apply map_id. Qed.
+
+Lemma in_PL pt : In pt PL -> exists x, In x names /\ pt = spec_part E p c x.
+Proof. intros H. apply in_map_iff in H as (x & <- & Hx). eauto. Qed.
+
+Lemma ct_or_ok x : In x names -> ct_lookup c x = Ok (ct_or c x).
+Proof.
+  intros Hx. apply (names_reach E p Hwf c) in Hx as [Hr Hn].
+  destruct (wf_ct_c E p Hwf cb c Hcb Hc x Hr Hn) as (ct & b & Hct & _). unfold ct_or. rewrite Hct. auto.
+Qed.
+
+Lemma clash_free x y : In x names -> In y names ->
+  pext (spec_part E p c x) = pext (spec_part E p c y) ->
+  intab E (spec_part E p c x) = true -> intab E (spec_part E p c y) = true ->
+  ct_or c x = ct_or c y.
+Proof.
+  intros Hx Hy He Hix Hiy.
+  pose proof (ct_or_ok x Hx) as Cx. pose proof (ct_or_ok y Hy) as Cy.
+  apply (names_reach E p Hwf c) in Hx as [Hrx Hnx]. apply (names_reach E p Hwf c) in Hy as [Hry Hny].
+  apply (Hnc x y); auto; rewrite (ct_in_c E p cb c Hcb Hc); auto.
+Qed.
+
+Lemma ct_after q : In q names ->
+  ct_lookup (content_types_item E PL) q = Ok (ct_or c q).
+Proof.
+  intros Hq. unfold content_types_item, defaults_and_overrides.
+  destruct (fold_left (cti_step E) PL (initdefs E, [])) as [D O] eqn:EDO.
+  assert (HO : O = map (fun pt => (p_name pt, p_ct pt)) (filter (fun pt => negb (intab E pt)) PL)).
+  { change O with (snd (D, O)). rewrite <- EDO. rewrite cti_overrides; auto.
+    simpl. rewrite PL_names. apply (proj2 (iter_part_names_spec E p Hwf c)). }
+  assert (HD : D = fst (fold_left (cti_step E) PL (initdefs E, []))) by (rewrite EDO; auto).
+  destruct Henv as [Hi1 Hi2].
+  destruct (cti_defaults_keys E PL (initdefs E) []) as [HDnd HDlow]; auto.
+  { intros k0 Hk. apply in_map_iff in Hk as (kv & <- & Hkv). auto. }
+  rewrite <- HD in HDnd, HDlow.
+  assert (HOkeys : forall n, In n (map fst O) -> In n names).
+  { intros n Hn. rewrite HO in Hn. rewrite map_map in Hn. simpl in Hn.
+    apply in_map_iff in Hn as (pt & <- & Hpt). apply filter_In in Hpt as [Hpt _].
+    apply in_PL in Hpt as (x & Hx & ->). exact Hx. }
+  assert (HOnd : NoDup (map fst O)).
+  { rewrite HO, map_map. simpl.
+    assert (Hnd : NoDup (map p_name PL)) by (rewrite PL_names; apply (proj2 (iter_part_names_spec E p Hwf c))).
+    revert Hnd. generalize PL. intros l. induction l as [|a l IH]; simpl; intros Hnd; [constructor|].
+    inversion Hnd; subst. destruct (negb (intab E a)); simpl; auto. constructor; auto.
+    intros Hin. apply H1. apply in_map_iff in Hin as (pt & He & Hpt). apply filter_In in Hpt as [Hpt _].
+    rewrite <- He. apply in_map; auto. }
+  unfold ct_lookup. cbn [fst snd].
+  assert (Step1 : lookup (lower q) (lower_keys (sort_by pair_leb O)) = lookup q O).
+  { rewrite lookup_lower_keys.
+    - apply lookup_sort; auto.
+    - intros k1 k2 H1 H2 He.
+      assert (Hall : forall n, In n (q :: map fst (sort_by pair_leb O)) -> reachable E p n).
+      { intros n [<-|Hn]; [apply (names_reach E p Hwf c) in Hq; tauto|].
+        apply (Permutation_in n (Permutation_map fst (sort_by_perm pair_leb O))) in Hn.
+        apply HOkeys in Hn. apply (names_reach E p Hwf c) in Hn; tauto. }
+      apply (wf_case E p Hwf); auto.
+    - eapply Permutation_NoDup; [apply Permutation_map, Permutation_sym, sort_by_perm|auto]. }
+  rewrite Step1.
+  destruct (intab E (spec_part E p c q)) eqn:Eq.
+  - (* declared through a Default *)
+    assert (HnO : lookup q O = None).
+    { apply lookup_None. intros Hin. rewrite HO, map_map in Hin. simpl in Hin.
+      apply in_map_iff in Hin as (pt & He & Hpt). apply filter_In in Hpt as [Hpt Hni].
+      apply in_PL in Hpt as (x & Hx & ->). simpl in He. subst x. rewrite Eq in Hni. discriminate. }
+    rewrite HnO.
+    assert (Hsd : lower_keys (sort_by pair_leb D) = sort_by pair_leb D).
+    { apply lower_keys_lowered.
+      - eapply Permutation_NoDup; [apply Permutation_map, Permutation_sym, sort_by_perm|auto].
+      - intros k0 Hk. apply HDlow.
+        exact (Permutation_in k0 (Permutation_map fst (sort_by_perm pair_leb D)) Hk). }
+    rewrite Hsd, lookup_sort by auto.
+    change (lower (ext q)) with (pext (spec_part E p c q)).
+    assert (HinPL : In (spec_part E p c q) PL) by (apply in_map; auto).
+    destruct (cti_defaults_key E PL (initdefs E) [] _ HinPL Eq) as (v & Hv).
+    rewrite <- HD in Hv. rewrite Hv.
+    rewrite HD in Hv. apply cti_defaults_val in Hv as [(pt & Hpt & Hi & He & Hct)|[_ Hno]].
+    + apply in_PL in Hpt as (x & Hx & ->). rewrite <- Hct. simpl. f_equal.
+      apply clash_free; auto.
+    + exfalso. apply (Hno _ HinPL Eq). reflexivity.
+  - (* declared through an Override *)
+    rewrite (lookup_NoDup_In q (ct_or c q)); auto.
+    rewrite HO. apply in_map_iff. exists (spec_part E p c q). split; auto.
+    apply filter_In. split; [apply in_map; auto|]. rewrite Eq. reflexivity.
+Qed.
+End SaveTypes.
+
+Lemma c01_payload_type {blob} (E : env blob) p :
+  wf E p -> codec_ok E -> env_ok E -> no_default_clash E p ->
+  exists k, load E p = Ok k /\
+    forall q ct b, reachable E p q -> q <> root -> ct_in E p q = Ok ct -> lookup q p = Some b ->
+      ct_in E (save E k) q = Ok ct /\
+      lookup q (save E k) = (if is_xml_ct E ct then reser E b else Some b).
+Proof.
+  intros Hwf Hcodec Henv Hnc. destruct (load_wf E p Hwf) as (cb & c & Hcb & Hc & Hl).
+  exists (spec_pkg E p c). split; auto. intros q ct b Hr Hn Hct Hb.
+  rewrite (ct_in_c E p cb c Hcb Hc) in Hct. split.
+  - unfold ct_in, save. cbn [lookup]. rewrite str_eqb_refl.
+    destruct Hcodec as (_ & Hdc & _). rewrite Hdc.
+    rewrite (iter_parts_spec E p Hwf c), (ct_after E p Hwf cb c Hcb Hc Henv Hnc q).
+    + unfold ct_or. rewrite Hct. reflexivity.
+    + apply (names_reach E p Hwf c); auto.
+  - apply (lookup_save_payload E p Hwf cb c Hcb Hc); auto.
+Qed.
+
+Lemma c01_rels {blob} (E : env blob) p : wf E p -> codec_ok E ->
+  exists k, load E p = Ok k /\
+    forall src, reachable E p src ->
+      exists rs rs', rels_for E p src = Some rs /\ rels_for E (save E k) src = Some rs' /\
+                     Permutation (map (rel_sem src) rs) (map (rel_sem src) rs').
+Proof.
+  intros Hwf Hcodec. destruct (load_wf E p Hwf) as (cb & c & Hcb & Hc & Hl).
+  exists (spec_pkg E p c). split; auto. intros src Hr.
+  apply (rels_preserved E p Hwf c Hcodec).
+  destruct (str_eq_dec src root); auto. right. apply (names_reach E p Hwf c); auto.
+Qed.
+
+(** ---- soundness of the decidable side conditions ---- *)
+
+Lemma reach_in_closed g r L : In r L -> (forall x, In x L -> forall y, In y (g x) -> In y L) ->
+  forall x, reach g r x -> In x L.
+Proof. intros Hr Hc x H. induction H; eauto. Qed.
+
+Lemma nodupb_NoDup l : nodupb l = true -> NoDup l.
+Proof.
+  induction l as [|x l IH]; simpl; [constructor|]. intros H.
+  apply andb_true_iff in H as [H1 H2]. apply negb_true_iff in H1. apply mem_str_nIn in H1.
+  constructor; auto.
+Qed.
+
+Lemma NoDup_map_inj {A B} (f : A -> B) l : NoDup (map f l) ->
+  forall x y, In x l -> In y l -> f x = f y -> x = y.
+Proof.
+  induction l as [|a l IH]; simpl; [tauto|]. intros Hnd x y Hx Hy He. inversion Hnd; subst.
+  destruct Hx as [<-|Hx], Hy as [<-|Hy]; auto.
+  - exfalso. apply H1. rewrite He. apply in_map; auto.
+  - exfalso. apply H1. rewrite <- He. apply in_map; auto.
+Qed.
+
+Lemma part_nameb_sound x : part_nameb x = true -> part_name x.
+Proof.
+  destruct x as [|c0 r]; [discriminate|]. unfold part_nameb.
+  intros H. apply andb_true_iff in H as [H Hshape]. apply andb_true_iff in H as [H Hct].
+  apply andb_true_iff in H as [Hs Hsegs].
+  unfold is_slash in Hs. apply N.eqb_eq in Hs. subst c0.
+  exists (split_on c_slash r). repeat split.
+  - apply forallb_true_iff. exact Hsegs.
+  - apply split_on_nonnil.
+  - unfold render. f_equal. symmetry. apply (join_split c_slash r).
+  - apply negb_true_iff in Hct. apply str_eqb_neq in Hct. exact Hct.
+  - intros (d & f & He). rewrite He in Hshape. rewrite rev_app_distr in Hshape. simpl in Hshape.
+    try rewrite str_eqb_refl in Hshape. discriminate.
+Qed.
+
+Lemma wfb_sound {blob} (E : env blob) p : wfb E p = true -> wf E p.
+Proof.
+  unfold wfb. set (L := xml_rels_names E p).
+  intros H. apply andb_true_iff in H as [H Hcase]. apply andb_true_iff in H as [H Hpn].
+  apply andb_true_iff in H as [H Hrels]. apply andb_true_iff in H as [H Hct].
+  apply andb_true_iff in H as [Hroot Hclosed].
+  assert (HL : forall x, reachable E p x -> In x L).
+  { apply reach_in_closed; [apply mem_str_In; auto|].
+    intros x Hx y Hy. rewrite forallb_forall in Hclosed. specialize (Hclosed x Hx).
+    rewrite forallb_forall in Hclosed. apply mem_str_In. auto. }
+  rewrite forallb_forall in Hrels, Hpn.
+  split; [|split; [|split]].
+  - destruct (lookup ct_uri p) as [cb|]; [|discriminate]. destruct (dec_ct E cb) as [c|]; [|discriminate].
+    exists cb, c. repeat split; auto. intros x Hx Hn. rewrite forallb_forall in Hct.
+    specialize (Hct x (HL x Hx)). apply str_eqb_neq in Hn. rewrite Hn in Hct. simpl in Hct.
+    destruct (ct_lookup c x) as [ct|]; [|discriminate]. destruct (lookup x p) as [b|]; [|discriminate].
+    exists ct, b. repeat split; auto. intros Hx'. rewrite Hx' in Hct. simpl in Hct.
+    destruct (reser E b) as [b'|]; [eauto|discriminate].
+  - intros x Hx. specialize (Hrels x (HL x Hx)). destruct (rels_for E p x) as [rs|]; [|discriminate].
+    apply andb_true_iff in Hrels as [H1 H2]. exists rs. repeat split; auto.
+    + apply nodupb_NoDup; auto.
+    + rewrite forallb_forall in H2. specialize (H2 r H). apply andb_true_iff in H2 as [H2 _].
+      intros Hm. rewrite Hm in H2. discriminate.
+    + rewrite forallb_forall in H2. specialize (H2 r H). apply andb_true_iff in H2 as [_ H2].
+      intros He. rewrite He in H2. simpl in H2. apply negb_true_iff in H2. apply str_eqb_neq; auto.
+  - intros x Hx Hn. specialize (Hpn x (HL x Hx)). apply str_eqb_neq in Hn. rewrite Hn in Hpn.
+    apply part_nameb_sound; auto.
+  - intros x y Hx Hy He. apply nodupb_NoDup in Hcase.
+    apply (NoDup_map_inj lower L Hcase); auto.
+Qed.
+
+Lemma no_default_clashb_sound {blob} (E : env blob) p :
+  wfb E p = true -> no_default_clashb E p = true -> no_default_clash E p.
+Proof.
+  intros Hwfb H x y cx cy Hx Hy _ _ Cx Cy He Tx Ty.
+  assert (HL : forall z, reachable E p z -> In z (xml_rels_names E p)).
+  { apply (proj1 (names_spec E p (wfb_sound E p Hwfb))). }
+  unfold no_default_clashb in H. rewrite forallb_forall in H. specialize (H x (HL x Hx)).
+  rewrite forallb_forall in H. specialize (H y (HL y Hy)). rewrite Cx, Cy in H.
+  rewrite He, Tx, Ty, str_eqb_refl in H. simpl in H. apply str_eqb_eq; auto.
+Qed.
